@@ -277,7 +277,8 @@ pub fn jenkins_hashlittle2(filename: &str, hash_bits: u32) -> (u64, u8) {
     // Calculate masks
     let (and_mask, or_mask) = if hash_bits < 64 {
         let and_mask = (1u64 << hash_bits) - 1;
-        let or_mask = 1u64 << (hash_bits - 1);
+        // A zero-width hash (corrupt table header) has no top bit to set
+        let or_mask = hash_bits.checked_sub(1).map_or(0, |shift| 1u64 << shift);
         (and_mask, or_mask)
     } else {
         (0xFFFFFFFFFFFFFFFF, 0)
@@ -288,7 +289,8 @@ pub fn jenkins_hashlittle2(filename: &str, hash_bits: u32) -> (u64, u8) {
 
     // Extract NameHash1
     let name_hash1 = if hash_bits < 64 {
-        ((file_name_hash >> (hash_bits - 8)) & 0xFF) as u8
+        // (hashes narrower than 8 bits are their own NameHash1)
+        ((file_name_hash >> hash_bits.saturating_sub(8)) & 0xFF) as u8
     } else {
         ((file_name_hash >> 56) & 0xFF) as u8
     };
